@@ -746,6 +746,10 @@ func (f *transformationCallable) updateEntries(item reflect.Value) error {
 		return newEvalError(ErrIllegalUpdate, f.updates, nil)
 	}
 
+	// The update may be an interface value holding the
+	// map (e.g. the result of a function call).
+	updates = jtypes.Resolve(updates)
+
 	for _, key := range updates.MapKeys() {
 		item.SetMapIndex(key, updates.MapIndex(key))
 	}
